@@ -20,11 +20,11 @@ import (
 func init() { register("C20", runC20, replayC20) }
 
 type c20Case struct {
-	Kind  string `json:"kind"` // roundtrip-stat, roundtrip-packet, decode, framing
-	Bytes []byte `json:"bytes,omitempty"`
-	Stat  []byte `json:"stat,omitempty"`   // VT encoding of the stat value
+	Kind  string   `json:"kind"` // roundtrip-stat, roundtrip-packet, decode, framing
+	Bytes []byte   `json:"bytes,omitempty"`
+	Stat  []byte   `json:"stat,omitempty"` // VT encoding of the stat value
 	Pkts  [][]byte `json:"pkts,omitempty"` // VT encodings of the packets of a framing case
-	Cuts  []int  `json:"cuts,omitempty"`   // read sizes handed out by the reader
+	Cuts  []int    `json:"cuts,omitempty"` // read sizes handed out by the reader
 }
 
 func statValues() []*types.Stat {
